@@ -52,7 +52,7 @@ func decBytes(codec string) handler {
 			e.setRes(f, x, Tu{[]Value{e.unsnap(s, st.Payload.(Str)), If{}}})
 			return nil, false
 		}
-		return e.decodeArbitrary(s, f, x, codec, func(ns *State) Value {
+		return e.decodeArbitraryOf(s, f, x, st, codec, func(ns *State) Value {
 			n := 8
 			arr, _ := e.nondetArr(ns, "dec."+codec, n)
 			ln := e.freshVar(ns, "dec."+codec+".len", BVS(64))
@@ -63,6 +63,19 @@ func decBytes(codec string) handler {
 }
 
 // decodeArbitrary forks into a success branch (arbitrary value) and an error branch.
+// decodeArbitraryOf: like decodeArbitrary, but whether an opaque atom decodes is a function of
+// the atom (decoding the same string twice gives the same verdict).
+func (e *Engine) decodeArbitraryOf(s *State, f *Frame, x ssa.Value, st Str, what string, mk func(ns *State) Value, zeroV Value) ([]*State, bool) {
+	if st.Kind == 1 && !e.initMode {
+		okv := App("decodes."+what, BoolS, st.Atom)
+		return e.forkOn(s, f, []alt{
+			{okv, func(ns *State, nf *Frame) { ns.Lenient++; e.setRes(nf, x, Tu{[]Value{mk(ns), If{}}}) }, "decode-ok"},
+			{Not(okv), func(ns *State, nf *Frame) { e.setRes(nf, x, Tu{[]Value{zeroV, e.newErr(ns, "decode "+what, nil)}}) }, "decode-err"},
+		})
+	}
+	return e.decodeArbitrary(s, f, x, what, mk, zeroV)
+}
+
 func (e *Engine) decodeArbitrary(s *State, f *Frame, x ssa.Value, what string, mk func(ns *State) Value, zeroV Value) ([]*State, bool) {
 	if e.initMode {
 		// package initialisers must not fork: decoding of embedded data is not modelled
@@ -111,7 +124,7 @@ func registerCodecs() {
 				if signedResult {
 					what = "i64dec"
 				}
-				return e.decodeArbitrary(s, f, x, what, func(ns *State) Value { return Sc{e.freshVar(ns, "dec."+what, BVS(64))} }, zero)
+				return e.decodeArbitraryOf(s, f, x, st, what, func(ns *State) Value { return Sc{e.freshVar(ns, "dec."+what, BVS(64))} }, zero)
 			}
 			v := st.Payload.(Sc).T
 			srcSigned := st.Codec == "i64dec"
@@ -173,6 +186,9 @@ func registerCodecs() {
 			return st.Payload
 		}
 		// lenient parser: any string yields some address; equal strings yield equal addresses
+		if st.Kind == 1 {
+			return BA{A: BVArr(App("hextoaddr", BVS(160), st.Atom), 20), N: 20}
+		}
 		arr, _ := e.nondetArr(s, "hextoaddr", 20)
 		return BA{A: arr, N: 20}
 	}))
@@ -185,6 +201,9 @@ func registerCodecs() {
 			return Sc{False}
 		}
 		s.Lenient++
+		if st.Kind == 1 {
+			return Sc{App("ishexaddr", BoolS, st.Atom)}
+		}
 		return Sc{e.freshBool(s, "ishexaddr")}
 	}))
 	hasPrefix := func(st Str, p string) *Term {
